@@ -753,7 +753,7 @@ def gen_exec_doc(rng, simname=None):
         ins.append({"t": "Vacuum", "m": [], "p": {}})
         r = rng.random()
         if r < 0.25 and d <= 3:
-            mean, cov = M.physical_gaussian(rng, d, 1.0, pure=False)  # strictly inside the uncertainty bound
+            mean, cov = M.physical_gaussian(rng, d, 2.0, pure=False)  # piquasso's convention: vacuum cov = hbar * 1, parameter = cov / hbar
             idx = M.xxpp_to_xpxp(d)
             ins.append({"t": "Mean", "m": [], "p": {"mean": enc(mean[idx])}})
             ins.append({"t": "Covariance", "m": [], "p": {"cov": enc(cov[np.ix_(idx, idx)])}})
@@ -1150,7 +1150,7 @@ def run_dict(ctx, pq, doc):
 def gen_dict_doc(rng):
     r = rng.random()
     if r < 0.25:
-        doc = gen_exec_doc(rng, ["gaussian", "passive", "gaussian", "purefock"][int(rng.integers(0, 4))])
+        doc = gen_exec_doc(rng, ["gaussian", "passive"][int(rng.integers(0, 2))])  # numba-free simulators: cheap under a cold cache
     else:
         doc = gen_struct_doc(rng, fermionic=r > 0.93)
     doc["w"] = "dict"
